@@ -28,7 +28,7 @@ type c06Case struct {
 func init() {
 	engine.Register(&engine.Check{
 		ID: "C06", Level: "model_checking",
-		Rule: "tree of ALL token sequences, complete to the stated depth in three tiers: (i) full alphabet (28 type keywords, EMPTY, '(' ')' ',', coordinate tokens of arity 1..5) to depth 9 (quick) / 10 (thorough); (ii) reduced alphabet {POINT,MULTIPOINT,MULTIPOLYGON,GEOMETRYCOLLECTION} x {base,Z,M,ZM} + EMPTY ( ) , + 8 coordinate tokens (two values per arity 2..4 so that unclosed rings and Z/M-only differences occur) to depth 11 / 13; (iii) tiny alphabet {GC, GC M, GC Z, POINT, POINT M, POINT Z, EMPTY ( ) , arity 2, 3} to depth 16 / 19. A prefix is extended unless the parse failed strictly before its last token (or at the last token and no continuation can re-lex it) - sound for an LALR(1) parser; every explored sequence is parsed by wkt.Unmarshal (no panic; error renders with a position inside the input; accepted => well-formed, one layout, lines >=2, rings closed >=4, re-encode round trip) and compared with the independent reference reader (accept/reject and geometry). Plus every single-token deletion/substitution/transposition of every valid corpus text, and every byte string of length <=4 (quick) / <=5 (thorough) over a 20-byte alphabet. states = explored sequences (viable prefixes + leaves)",
+		Rule: "tree of ALL token sequences, complete to the stated depth in three tiers: (i) full alphabet (28 type keywords, EMPTY, '(' ')' ',', coordinate tokens of arity 1..5) to depth 9 (quick) / 10 (thorough); (ii) reduced alphabet {POINT,MULTIPOINT,MULTIPOLYGON,GEOMETRYCOLLECTION} x {base,Z,M,ZM} + EMPTY ( ) , + 8 coordinate tokens (two values per arity 2..4 so that unclosed rings and Z/M-only differences occur) to depth 11 / 13; (iii) tiny alphabet {GC, GC M, GC Z, POINT, POINT M, POINT Z, EMPTY ( ) , arity 2, 3} to depth 16 / 19. A prefix is extended unless the parse failed strictly before its last token (or at the last token and no continuation can re-lex it) - sound for an LALR(1) parser; every explored sequence is parsed by wkt.Unmarshal (no panic; error renders with a position inside the input; accepted => well-formed, one layout, lines >=2, rings closed >=4, re-encode round trip) and compared with the independent reference reader (accept/reject and geometry). Plus a numeric-literal lattice (3 signs x 17 mantissas x 16 exponent forms in three positions), every tier-(iii) sequence of <=5 (thorough 6) tokens re-rendered with four whitespace styles (verdict must not change; errors on later lines / far into a line must render), every single-token deletion/substitution/transposition of every valid corpus text, and every byte string of length <=4 (quick) / <=5 (thorough) over a 20-byte alphabet. states = explored sequences (viable prefixes + leaves)",
 		Run:    c06Run,
 		Replay: func(c *engine.Ctx, kind string, raw json.RawMessage) { c06Exec(c, decodeCase[c06Case](raw)) },
 		Assumptions: []string{
@@ -433,6 +433,66 @@ func c06Run(c *engine.Ctx) {
 		}
 		rec(first[i], 2)
 	})
+	// numeric literals: every combination of sign x mantissa x exponent forms, in two positions
+	var lits []string
+	for _, sign := range []string{"", "-", "+"} {
+		for _, mant := range []string{"0", "1", "1.", ".5", "1.5", "00", "01", "1.797693134862315", "1.7976931348623159", "4", "9.999", "1e", "1_0", "0x1", "", ".", "1.2.3"} {
+			for _, exp := range []string{"", "e0", "E5", "e+5", "e-5", "e308", "e309", "e999", "E+400", "e-323", "e-324", "e-400", "e", "e+", "e1e1", "e1.5"} {
+				lits = append(lits, sign+mant+exp)
+			}
+		}
+	}
+	lits = append(lits, "Inf", "inf", "NaN", "nan", "Infinity", "+Inf", "-Inf", "1e1000000000000000000000", "123456789012345678901234567890", "0.000000000000000000000000000000000000000000001")
+	c.Note("numeric_literals", len(lits))
+	c.Parallel(len(lits), func(i int) {
+		for _, tpl := range []string{"POINT(%s 2)", "LINESTRING(1 2,3 %s)", "POINT Z(1 2 %s)"} {
+			c06Exec(c, c06Case{Text: fmt.Sprintf(tpl, lits[i]), Diff: true})
+			c.Count("evaluations", 1)
+			c.Count("numeric_literal_cases", 1)
+		}
+	})
+	// every accepted or rejected tier-3 sequence up to depth 7 rendered with other whitespace: the
+	// verdict must not change, and error messages must render for errors on later lines and far
+	// into a line
+	{
+		alpha3 := c06Alphabet(3)
+		seps := []string{"\n", strings.Repeat(" ", 37), "\n" + strings.Repeat(" ", 45), "\t\r\n"}
+		var rec func(seq []string, d int)
+		rec = func(seq []string, d int) {
+			if len(seq) > 0 {
+				canon := strings.Join(seq, " ")
+				_, cerr := wkt.Unmarshal(canon)
+				for si, sep := range seps {
+					text := strings.Repeat("\n", si) + strings.Repeat(" ", 40*(si%2)) + strings.Join(seq, sep)
+					out := c06Exec(c, c06Case{Text: text})
+					c.Count("evaluations", 1)
+					c.Count("whitespace_renderings", 1)
+					if out.accepted != (cerr == nil) {
+						c.Violate("wkt/whitespace-changes-verdict", fmt.Sprintf("%q accepted=%v but %q accepted=%v", canon, cerr == nil, text, out.accepted), "c06", c06Case{Text: text})
+					}
+				}
+			}
+			if d == 0 {
+				return
+			}
+			lastCoord := len(seq) > 0 && strings.ContainsAny(seq[len(seq)-1][:1], "0123456789")
+			for _, t := range alpha3 {
+				if lastCoord && t.coord {
+					continue
+				}
+				rec(append(append([]string{}, seq...), t.text), d-1)
+			}
+		}
+		var firsts []string
+		for _, t := range alpha3 {
+			firsts = append(firsts, t.text)
+		}
+		depthWS := 4
+		if c.Thorough() {
+			depthWS = 5
+		}
+		c.Parallel(len(firsts), func(i int) { rec([]string{firsts[i]}, depthWS) })
+	}
 	// valid keywords embedded in hostile bytes: position arithmetic of the error renderer
 	for _, pre := range []string{"", "\n", "\n\n  ", strings.Repeat(" ", 40), strings.Repeat("\t", 35), "\xff\n"} {
 		for _, body := range []string{"POINT(1 2", "POINT(1 2)x", "POINT(1 2))", "POINT (1 2 3 4 5)", "LINESTRING(1 2)", "POLYGON((1 2,3 4,5 6,7 8))", "GEOMETRYCOLLECTION M (POINT (1 2 3))"} {
